@@ -106,17 +106,26 @@ Record case := mkcase {
   k_family : family; k_period : period; k_electric : bool; k_ctx : ctx;
   k_has_obs : bool; k_has_ghi : bool; k_segs : list seg;
   k_counts : option counts;     (* n_days_total, n_valid_days, n_valid_meter_value_days, n_valid_temperature_days *)
-  k_outcome : outcome           (* canonicalised observation of the implementation *)
+  k_outcome : outcome;          (* canonicalised observation of the implementation *)
+  k_drop_extreme : bool         (* the extreme-value limit is within rounding distance of a usage value: not compared *)
 }.
 
 Definition case_frame (c : case) : frame := mkframe (k_has_obs c) (k_has_ghi c) (expand (k_segs c)).
+
+Definition drop_extreme (o : outcome) : outcome :=
+  match o with
+  | Accepted d w => Accepted d (filter (fun n => negb (w_eqb n ExtremeValues)) w)
+  | Raised e => Raised e
+  end.
+Definition outcome_agrees (c : case) (m : outcome) : bool :=
+  if k_drop_extreme c then outcome_eqb (drop_extreme m) (drop_extreme (k_outcome c)) else outcome_eqb m (k_outcome c).
 
 Definition check_case (c : case) : bool :=
   let fr := case_frame c in
   let p := code_params in
   let is_rep := is_reporting_flag p (k_family c) (k_period c) in
   match k_counts c with
-  | None => outcome_eqb (dataclass p (k_family c) (k_period c) (k_electric c) (k_ctx c) fr) (k_outcome c)
+  | None => outcome_agrees c (dataclass p (k_family c) (k_period c) (k_electric c) (k_ctx c) fr)
   | Some ic =>
       let ex := compute_counts p is_rep fr in
       let '(nv, nm, nt) := near_flags p is_rep fr in
@@ -124,7 +133,7 @@ Definition check_case (c : case) : bool :=
       && count_agrees (c_valid ex) (c_valid ic) nv
       && (is_rep || count_agrees (c_meter ex) (c_meter ic) nm)
       && count_agrees (c_temp ex) (c_temp ic) nt
-      && outcome_eqb (dataclass_with_counts p (k_family c) (k_period c) (k_electric c) (k_ctx c) fr ic) (k_outcome c)
+      && outcome_agrees c (dataclass_with_counts p (k_family c) (k_period c) (k_electric c) (k_ctx c) fr ic)
   end.
 
 (* diagnostics for a disagreeing case *)
